@@ -27,11 +27,12 @@ _NEST = ('; OVERLAPPING BODIES: every body has one scheduling point between its 
 _SHAPES = {0: 'schedule(f)', 1: 'schedule(f, ForceQueuingTag)', 2: 'scheduleBulk(2, gen)', 3: 'scheduleBulk(2, gen, ForceQueuingTag)'}
 
 
-def exc(setk, pool, cost=1, mask=15, nwait=1, wsteps=1, ctx=1, nest=0, tiers=('thorough',), tag=''):
+def exc(setk, pool, cost=1, mask=15, nwait=1, wsteps=1, ctx=1, nest=0, tiers=('thorough',), tag='', xdefs=None):
     name = '%s%s_p%d_m%d_w%d%s%s' % ('ts' if setk == 0 else 'cts', '' if setk == 0 else ('H' if cost else 'L'), pool, mask, nwait,
                                    '_nest' if nest else '', tag)
     defs = {'VF_SET': setk, 'VF_POOL_N': pool, 'VF_COST': cost, 'VF_OPMASK': mask, 'VF_NWAIT': nwait, 'VF_WSTEPS': wsteps,
             'VF_CTX': ctx, 'VF_NEST': nest, 'VF_MQ_CAP': 1, 'VF_PQ_CAP': 2}
+    defs.update(xdefs or {})
     shapes = ', '.join(_SHAPES[k] for k in range(4) if (mask >> k) & 1)
     b = ('%s%s on the contract pool with %d threads; 2 task bodies of which a symbolic subset throws; submitted as two single calls or '
          'one bulk call out of {%s} from a symbolic load pre-state (load multiplier 1..4%s); <=%d virtual-worker step(s) after each call; '
@@ -58,6 +59,11 @@ _Q = ('quick', 'thorough')
 INSTANCES = [
     exc(1, 1, cost=1, mask=3, tiers=_Q),
     exc(1, 2, cost=1, mask=2, nest=1, ctx=0, tiers=_Q),
+    exc(1, 2, cost=1, mask=2, nest=1, ctx=0, tiers=('exp',), tag='_x0', xdefs={'VF_NMASK': 0}),
+    exc(1, 2, cost=1, mask=2, nest=1, ctx=0, tiers=('exp',), tag='_x1', xdefs={'VF_NMASK': 1}),
+    dict(exc(1, 2, cost=1, mask=2, nest=1, ctx=0, tiers=('prep',), tag='_v1', xdefs={'VF_NMASK': 1, 'VF_XV': 1}), timeout=3),
+    dict(exc(1, 2, cost=1, mask=2, nest=1, ctx=0, tiers=('prep',), tag='_v2', xdefs={'VF_NMASK': 1, 'VF_XV': 2}), timeout=3),
+    dict(exc(1, 2, cost=1, mask=2, nest=1, ctx=0, tiers=('prep',), tag='_v3', xdefs={'VF_NMASK': 1, 'VF_XV': 3}), timeout=3),
     # thorough tier (defined, not run in this round): other set kind / pool sizes / bulk shapes / two completion calls
     exc(0, 1, mask=3), exc(1, 1, cost=0, mask=3), exc(1, 2, cost=1, mask=12), exc(0, 2, mask=12), exc(1, 2, cost=0, mask=12),
     exc(0, 0, mask=15), exc(1, 0, cost=1, mask=15), exc(1, 1, cost=1, mask=3, nwait=2), exc(0, 1, mask=15, nwait=2),
